@@ -13,6 +13,8 @@
 # limitations under the License.
 
 
+import jax.numpy as jnp
+
 from genjax._src.core.compiler.interpreters.incremental import (
     Diff,
     NoChange,
@@ -43,6 +45,14 @@ from genjax._src.core.typing import (
 
 R = TypeVar("R")
 
+
+def _clamp_index(idx: "int | IntArray", n: int) -> "int | IntArray":
+    """Clamps `idx` into `[0, n)`, as `jax.lax.switch` does for the branch that executes."""
+    if isinstance(idx, int):
+        return min(max(idx, 0), n - 1)
+    return jnp.clip(idx, 0, n - 1)
+
+
 ################
 # Switch trace #
 ################
@@ -66,7 +76,7 @@ class SwitchTrace(Generic[R], Trace[R]):
         Note:
             This method assumes that the first argument passed to the Switch was the index used for branch selection.
         """
-        return self.get_args()[0]
+        return _clamp_index(self.get_args()[0], len(self.subtraces))
 
     def get_args(self) -> tuple[Any, ...]:
         return self.args
@@ -165,6 +175,7 @@ class Switch(Generic[R], GenerativeFunction[R]):
     ) -> SwitchTrace[R]:
         idx, branch_args = args[0], args[1:]
         self._check_args_match_branches(branch_args)
+        idx = _clamp_index(idx, len(self.branches))
 
         fs = list(f.simulate for f in self.branches)
         f_args = list((key, args) for args in branch_args)
@@ -182,6 +193,7 @@ class Switch(Generic[R], GenerativeFunction[R]):
     ) -> tuple[Score, R]:
         idx, branch_args = args[0], args[1:]
         self._check_args_match_branches(branch_args)
+        idx = _clamp_index(idx, len(self.branches))
 
         fs = list(f.assess for f in self.branches)
         f_args = list((sample, args) for args in branch_args)
@@ -196,6 +208,7 @@ class Switch(Generic[R], GenerativeFunction[R]):
     ) -> tuple[SwitchTrace[R], Weight]:
         idx, branch_args = args[0], args[1:]
         self._check_args_match_branches(branch_args)
+        idx = _clamp_index(idx, len(self.branches))
 
         fs = list(f.generate for f in self.branches)
         f_args = list((key, constraint, args) for args in branch_args)
@@ -268,7 +281,7 @@ class Switch(Generic[R], GenerativeFunction[R]):
         self._check_args_match_branches(branch_argdiffs)
 
         primals = Diff.tree_primal(argdiffs)
-        new_idx = primals[0]
+        new_idx = _clamp_index(primals[0], len(self.branches))
 
         if Diff.tree_tangent(idx_diff) == NoChange:
             # If the index hasn't changed, perform edits on each branch.
